@@ -15,7 +15,7 @@ def theorems(prop):
 
 NOTE = ("Trusted: Lean 4.33 kernel (axioms audited per theorem: propext, Classical.choice, Quot.sound only); the hand-written Model "
         "(tied to /repo by the differential correspondence run by this check, not by proof); the Spec as the reading of UAX #9 / the "
-        "property; tools/gen_tables.py; the Rust harness, Lean driver and line protocol; Rust std.")
+        "property; the translators tools/gen_tables.py and tools/gen_code.py; the Rust harness, Lean driver and line protocol; Rust std.")
 
 P = {
  "C01": ("FULL proof: for every well-formed text (every &str, every &[u16]), every data source and every base-direction choice, BidiInfo::new / ParagraphBidiInfo::new as modelled cannot panic and the levels of every paragraph are the expansion to code units of UAX #9's levels (Spec.paragraphLevels: X1-X8, X9, X10/BD13, W1-W7, BD16/N0-N2 with the 63 limit, I1-I2, and the level carried by removed characters) of the paragraph's characters with their reported classes, at the P2/P3 paragraph level (C01_bidiInfo, C01_paragraphBidiInfo, C01_chars, C01_unit; built-in data for &str and &[u16]: C01_hardcoded_str, C01_hardcoded_utf16 and the _single forms). Proved by stages (StageX = C11_sim, StageSeq, StageW, StageN incl. retained BN units, StageI, StageFill, pure-LTR shortcut, Expand = unit-length independence) and composed in Lemmas/C01Compose*. Since the repair of finding D9 no hypothesis on the data source's bracket classes remains. Tie to the code: Impl/Model correspondence end-to-end and stage by stage through the cfg hooks; the Spec oracle on the crate's own answers finds the replay (generated texts incl. depth > 125, > 63 pending brackets over several level runs, every bracket pair of the reference in N0-sensitive templates, > 256 sibling isolates, removed-only text, multi-unit characters; exhaustive small scope in the thorough tier).", "Lean theorems (Model = UAX #9 Spec, all inputs) + Impl/Model correspondence (end-to-end and per stage via hooks) + Spec oracle"),
@@ -60,7 +60,7 @@ for i in range(1, 21):
 
 m = {
  "version": 1,
- "setup_cmd": "cd /verif && python3 tools/gen_tables.py && (cd lean && lake build UBidi ubidi-driver UBidi.Props) && (cd harness && CARGO_NET_OFFLINE=true cargo build --release --offline)",
+ "setup_cmd": "cd /verif && python3 tools/gen_tables.py && python3 tools/gen_code.py && (cd lean && lake build UBidi ubidi-driver UBidi.Props) && (cd harness && CARGO_NET_OFFLINE=true cargo build --release --offline)",
  "hooks": {
    "guard": "unicode_bidi_verif",
    "enable": "harness/.cargo/config.toml sets build.rustflags = [\"--cfg\", \"unicode_bidi_verif\"], so every harness build compiles /repo with the hook module `unicode_bidi::verif_hooks` (re-exports of explicit::compute, prepare::isolating_run_sequences, implicit::{resolve_weak, resolve_neutral, resolve_levels}); the STAGE stream of the C01/C07/C11/C13 checks compares every stage with the Model's stage function",
